@@ -128,7 +128,7 @@ struct config
   bool replay = false;
   double deadline_s = 600;
   int jobs = 16;
-  int hang_s = 10;
+  int hang_s = 60; // seconds without a new announced case before the watchdog calls it a hang (generous: the machine may be loaded)
   std::string only; // run only shards whose name contains this
 };
 
